@@ -99,7 +99,7 @@ def run_property(prop: Prop, tier: str, seed: int, replay: str | None = None) ->
     pid = prop.id
     out = core.Outcome(pid, tier, seed)
     out.assumptions = list(prop.assumptions)
-    proof = core.proof_status(pid)
+    proof = core.proof_status(pid, tier)
     core.setup_impl_path()
     known = {e["key"]: e for e in core.load_known(pid) if e.get("status") == "open"}
 
